@@ -96,9 +96,15 @@ def compare_recovery(rec0, rec1):
         if op0 != op1:
             return None
         fa, fb = V.kv(a0), V.kv(a1)
+        name = op0.split(" ")[0]
+        if name in SEEKS and (fa.get("state") in ("2",) or fb.get("state") in ("2",)):
+            # a seek that found no further page of the stream (position at the very end, foreign pages of a multiplexed stream behind it) leaves the
+            # handle without stream state on one side and positioned on the other depending on what happened to be buffered: the link shown is derived
+            # from that state; position and the reads that follow are what is compared
+            fa.pop("link", None)
+            fb.pop("link", None)
         fa.pop("state", None)
         fb.pop("state", None)
-        name = op0.split(" ")[0]
         if name in SEEKS and fb.get("rc") != "0":
             return None            # the argument is refused on the twin as well: nothing to compare from here on
         if fa != fb or a0.split(" ")[0] != a1.split(" ")[0] or ("=" not in a1 and a0 != a1):
